@@ -183,12 +183,17 @@ def allocateOrOccupy (s : Sys) (n : NodeObj) (refresh : Bool) (ws : List WOut) :
       if cidrs.isEmpty then ({ s with alloc := al }, { res := "err", events := ["CIDRNotAvailable"] })
       else
         let s1 := { s with alloc := al }
-        let s2 := if refresh then
-            match getNode s1.api.nodes n.name with
-            | some cur => { s1 with nodeView := putNode s1.nodeView cur, nodeQ := qAdd s1.nodeQ n.name }
-            | none => { s1 with nodeView := delNode s1.nodeView n.name, nodeQ := qAdd s1.nodeQ n.name }
-          else s1
-        updateCIDRsAllocation s2 n.name cidrs i ws
+        if refresh then
+          match getNode s1.api.nodes n.name with
+          | some cur =>
+            updateCIDRsAllocation { s1 with nodeView := putNode s1.nodeView cur, nodeQ := qAdd s1.nodeQ n.name } n.name cidrs i ws
+          | none =>
+            -- the node left the cache in the middle of the item: the item fails on its second read, and the delete
+            -- handler that belongs to that cache update (`ReleaseCIDR` with the final state) runs once the item has
+            -- given the lock back
+            let r := updateCIDRsAllocation { s1 with nodeView := delNode s1.nodeView n.name, nodeQ := qAdd s1.nodeQ n.name } n.name cidrs i ws
+            ({ r.1 with alloc := (releaseCIDR r.1.alloc ((getNode s1.api.graves n.name).getD n)).1 }, r.2)
+        else updateCIDRsAllocation s1 n.name cidrs i ws
 
 /-- `syncNode` on the cached node -/
 def procNodeCore (s0 : Sys) (name : String) (refresh : Bool) (ws : List WOut) : Sys × Obs :=
